@@ -45,6 +45,17 @@ def encode_cmd_and_payload(
     return data
 
 
+def _check_group_value(value: DPTBinary | DPTArray) -> None:
+    """Raise ConversionError if value can not be serialized as group value."""
+    if isinstance(value, DPTArray) and (
+        not value.value
+        or not all(
+            isinstance(octet, int) and 0 <= octet <= 0xFF for octet in value.value
+        )
+    ):
+        raise ConversionError(f"Invalid payload for group value: {value.value!r:.100}")
+
+
 class APCIService(Enum):
     """Enum class for APCI services."""
 
@@ -537,6 +548,10 @@ class GroupValueWrite(APCI):
 
     value: DPTBinary | DPTArray
 
+    def __post_init__(self) -> None:
+        """Validate value."""
+        _check_group_value(self.value)
+
     def calculated_length(self) -> int:
         """Get length of APCI payload."""
         if isinstance(self.value, DPTBinary):
@@ -579,6 +594,10 @@ class GroupValueResponse(APCI):
     CODE: ClassVar = APCIService.GROUP_RESPONSE
 
     value: DPTBinary | DPTArray
+
+    def __post_init__(self) -> None:
+        """Validate value."""
+        _check_group_value(self.value)
 
     def calculated_length(self) -> int:
         """Get length of APCI payload."""
